@@ -18,5 +18,18 @@ def generate(rng, tier, idx):
     machine = MACHINES[idx % 3]
     n = rng.randint(2, 14 if tier == "quick" else 40)
     ops = gen_mf.history(rng, machine, n, invalid=0.3, restarts=0.05)
+    if machine == "M-RP" and rng.random() < 0.3 and len(ops) > 2:
+        # the manifest the calls go on adding to was loaded from an OLDER-format file (same content)
+        path = gen_mf.FILES[machine]
+        cut = rng.randint(2, len(ops))
+        ops[cut:cut] = [{"op": "dump", "path": path},
+                        {"op": "rp_downgrade", "path": path, "version": pick(rng, ["0.3", "0.3", "0.3", "1.0", "1.1"]), "tag": "C12", "decorate": None},
+                        {"op": "restart", "path": path, "via": pick(rng, ["path", "handle", "loads"]), "offset": rng.randint(0, 300)}]
+        if rng.random() < 0.5:
+            # ...and is then offered a call in the OLD vocabulary ('package' was 0.3's name for 'binary'): unknown category
+            a = gen_mf.rpm_add(rng, invalid=0)
+            if "srpm_nevra" in a:
+                a["category"] = "package"
+                ops.insert(rng.randint(cut + 3, len(ops)), a)
     ops.append({"op": "dump", "path": gen_mf.FILES[machine]})
     return {"machine": machine, "cfg": {}, "ops": ops}
